@@ -69,6 +69,16 @@ CHECKS = {
               "the real 5 s / SIGINT / 10 s / os._exit ladder runs in simulated time; oracle: every worker has exited within "
               "16 simulated seconds per hop.",
               "DESIGN.md 3/C11", "crash injection, bounded-liveness oracle in simulated time"),
+    "C13": (True, "fault_enumeration",
+            "Storage-fault enumeration on the reader seam: for generated values, the dump is read back after an early EOF at "
+            "EVERY offset, every single-byte substitution (dumps <= 24 bytes, sampled above), sampled deletions / insertions / "
+            "duplicated and zeroed ranges / bit flips / length-field bombs and 2-3 fault combinations, through loads() and "
+            "load(stream); oracle: value of supported types only, or DataFormatError/EOFError; no strict prefix loads; no "
+            "side effect (audit hook).",
+            "No scheduler is involved (the fault sequence is the input): this is the weakest fit to the technique and is "
+            "claimed only as enumeration of torn-write / flipped-stored-byte faults. Runs under RLIMIT_AS; the allocation by a "
+            "damaged length field is a listed known finding.", "DESIGN.md 3/C13",
+            "fault enumeration on stored bytes (torn write at every offset, byte substitution), typed-error oracle + audit hook"),
     "C14": gw("Seeded schedule search over histories of 1-5 remote_exec outcomes (return/raise/SystemExit/SIGINT/blocked) with "
               "sequential and overlapping submission on main_thread_only workers: main-thread identity, one at a time, "
               "submission order, documented deadlock error for overlaps only.",
@@ -78,6 +88,16 @@ CHECKS = {
               "transfer (bare/nested) -> use -> close/drop(+gc) conversations (items arrive on the originator's channel, "
               "numchannels / 'active channels' do not grow).",
               "DESIGN.md 3/C18", "targeted line preemption; long-history conservation oracle"),
+    "C19": gw("Seeded schedule search over item splits (empty items included) x read(n)/readline() sequences issued while items are "
+              "still arriving, on either side and every transport, stepped in lock-step against io.StringIO/io.BytesIO; writer "
+              "side: one item per write, flush, proxyclose on/off, write after close.",
+              "DESIGN.md 3/C19", "reference-model (StringIO/BytesIO) lock-step oracle under arrival-timing schedules"),
+    "C20": gw("Seeded schedule search (targeted preemption in allocate_id/_register/makegateway) over 2-3 tasks concurrently "
+              "creating gateways with auto and colliding explicit ids and exiting them; container-protocol snapshots after "
+              "every step (ids pairwise distinct, lookup by id/index/membership agree, auto ids never repeat, nothing left "
+              "behind); the spec-parsing clause is checked on generated strings against an independent parser.",
+              "DESIGN.md 3/C20", "concurrent-creation schedules + reference container model; input part reported separately",
+              "The spec-parsing clause has no schedule in it (input coverage only); the literal key 'env' is a listed known finding."),
 }
 
 NA = {
